@@ -1,10 +1,11 @@
 (* Dispatcher from property number to the correspondence entry point of its model. *)
 From Coq Require Import List ZArith.
-From GP Require Import Base.Val Base.GoStrings Model.Secure Model.Negotiate Model.Handshake Model.Stderr Model.Env Model.Stdio Model.MuxBroker Model.MuxTimed Model.Serve Model.ClientOps Model.Kill Model.Reattach Model.Tls Model.Interop Model.Resources Model.Conc Model.Params Generated.
+From GP Require Import Base.Val Base.GoStrings Model.Secure Model.Negotiate Model.Handshake Model.Stderr Model.Env Model.Stdio Model.MuxBroker Model.MuxTimed Model.Serve Model.ClientOps Model.Kill Model.Reattach Model.Tls Model.Interop Model.Resources Model.Conc Model.Crash Model.Params Generated.
 
 Definition check_prop (p : Z) (inp obs : V) : verdict :=
   match p with
   | 13%Z => check_secure inp obs
+  | 3%Z => check_crash gen_crash_params inp obs
   | 18%Z => check_leftovers gen_res_params inp obs
   | 20%Z => check_conc nextid_atomic inp obs
   | 14%Z => check_interop inp obs
